@@ -74,6 +74,7 @@ import errno
 import hashlib
 import socket
 import threading
+import time
 import traceback
 
 from vlib import refssh as R
@@ -276,7 +277,13 @@ class ScriptSock:
     ``max_send_events`` partial / not-ready events everything is accepted (cost bound).  Accepted
     bytes are collected until ``end_packet()`` (called by the bench after each send_message)
     and become one chunk of ``sent``; ``send_stats`` counts partial sends, not-ready events and
-    not-ready events that directly follow a partial send of the same packet."""
+    not-ready events that directly follow a partial send of the same packet.
+
+    ``stall`` (seconds, attribute; default none) / ``stalls_left``: the next ``stalls_left``
+    not-ready events of either side (send script -1/-2, recv timeout script) take ``stall``
+    seconds of real time before they raise, the way a socket with a timeout blocks for its timeout
+    before it gives up (lets a caller's timers - keepalive - run out during the event; never part
+    of an oracle); ``stalled`` counts them."""
 
     def __init__(self, frags=(), max_short=3000, timeouts=(), max_timeouts=4000, sends=(), max_send_events=4000):
         self.sent = []
@@ -309,6 +316,15 @@ class ScriptSock:
         self.consumed = 0
         self.mark_at = 0
         self.timeout_log = []
+        self.stall = 0
+        self.stalls_left = 0
+        self.stalled = 0
+
+    def _stall(self):
+        if self.stalls_left > 0 and self.stall:
+            self.stalls_left -= 1
+            self.stalled += 1
+            time.sleep(self.stall)
 
     # -- paramiko-facing surface
     def settimeout(self, t):
@@ -342,6 +358,7 @@ class ScriptSock:
                         st["eagain-after-partial"] += 1
                 elif not self.cur:
                     st["notready-before-first-byte"] += 1
+                self._stall()
                 if e == -1:
                     raise socket.timeout("timed out")
                 raise socket.error(errno.EAGAIN, "Resource temporarily unavailable")
@@ -372,6 +389,7 @@ class ScriptSock:
                 self.served = 0
                 self.timeouts_raised += 1
                 self.timeout_log.append(self.consumed - self.mark_at)
+                self._stall()
                 if t > 0:
                     raise socket.timeout("timed out")
                 raise socket.error(errno.EAGAIN, "Resource temporarily unavailable")
